@@ -460,13 +460,15 @@ class MgmComputation(VariableComputation):
             concerned_vars.update(c.dimensions)
         var_val, rel_val = find_arg_optimal(
             self.variable,
-            lambda x: functools.reduce(operator.add, [f(x) for f in reduced_cs]),
+            lambda x: functools.reduce(operator.add, [f(x) for f in reduced_cs])
+            + self.variable.cost_for_val(x),
             self._mode,
         )
-        # Add the cost for each variable value if any
+        # Add the cost for each neighbor variable value if any (our own cost depends
+        # on the candidate value and is already counted above).
         for var in concerned_vars:
             if var.name == self.name:
-                rel_val += var.cost_for_val(self.current_value)
+                continue
             else:
                 rel_val += var.cost_for_val(self._neighbors_values[var.name])
 
